@@ -1,4 +1,6 @@
 import KyupyVerif.Proofs.Sdf
+import KyupyVerif.Proofs.SdfText
+import KyupyVerif.Proofs.SdfTextRaw
 /-! # C14 — every SDF delay lands on the right line, polarity and data set — none is lost
 
 Object of the theorems: the hand-written model `KV.Sdf` (Model/Sdf.lean) of `kyupy/sdf.py` *after* lark:
@@ -13,9 +15,22 @@ given by two tables (`pinLine`, `icLine`).  All theorems quantify over ALL block
   `Mode.lastWins` (the `dict(...)` of the current tree) keeps only the last block of a name
   (`lastWins_keeps_last_only`), so the full statement is FALSE for it (`none_lost_false_lastWins`,
   `none_lost_top_false_lastWins`) and only `none_lost_partial` (pairwise different block names) holds.
-* **Correspondence** (harness/c14.py, differential, not proof): the model — in the mode that a probe of the real
-  `sdf.parse` selects — against the real `sdf.parse(text).iopaths/.interconnects` on generated circuits and SDF texts;
-  the grammar/lexer, `float`, NumPy assignment and the Verilog reader are exercised there, not modelled.
+* **Theorem, text level** (section `text`, model `KV.SdfText` in Model/SdfText.lean = the grammar of `sdf.py` read as lark reads
+  it: contextual scanner with the per-state terminal order of the real `Lark` object, keywords as prefixes, `ID` /
+  `ID_OR_EDGE` tried before the ignored terminals, `_NOB`, balanced TIMINGCHECK skip; then `SdfFile.ok` = what
+  `SdfTransformer` raises on): `sdf_text_roundtrip` — `parseSdf (printSdf f) = some f` for every tree with valid name
+  tokens and number fields (`SdfFile.valid`); `sdf_text_roundtrip_tree` (grammar alone), `sdf_text_valid_ok`;
+  `sdf_text_roundtrip_raw` — the same at the level of the block lists the theorems above are about (`SdfFile.toRaw` /
+  `ofRaw`: numbers in thousandths printed as `[-]i.fff`, `sdf_text_number_roundtrip`).
+* **Correspondence** (harness/c14.py, differential, not proof): (a) text level: the model reader (driver `sdfparse`) against the
+  real lark grammar (parse tree, token texts verbatim) and the real `sdf.parse` (accept / raise) on every generated text, on
+  hand-written corner cases and on mutated texts (one or two edits: character deleted / inserted / replaced, fragment
+  inserted); the generated text must read back as the generator's block list; for accepted mutants the delay arrays of the
+  post-parse model fed with the MODEL's block list equal the real arrays; (b) the post-parse model — in the mode that a probe
+  of the real `sdf.parse` selects — against the real `sdf.parse(text).iopaths/.interconnects` on generated circuits and texts.
+  What remains trusted at the text level: that lark implements the grammar as the hand-written reader does (LALR tables,
+  `re` semantics of the terminals) — checked by (a), not proved; `float`, NumPy assignment and the Verilog reader are
+  exercised, not modelled.
 * **Oracle** (harness/c14.py): the generator's ground-truth array (it placed every value itself) against the real
   result; this, not the model, decides violations. -/
 namespace KV.C14
@@ -427,5 +442,72 @@ example : iopaths exPins (parse .merge exCells) 1 5 false false = 2 :=
     (by decide +kernel) (by decide +kernel) (by decide) (by decide +kernel)
 /-- `none_lost_partial` has non-trivial instances -/
 example : ((([exCells[0], exCells[1], exCells[2]] : List RawCell).map cell).map (·.1)).Nodup := by decide +kernel
+
+/-! ## text level: the grammar of `sdf.py` (Model/SdfText.lean) -/
+section text
+open KV.SdfText
+
+/-- Print/parse round trip of the SDF text model: for every parse tree `f` (DESIGN names, CELL blocks with INSTANCE
+names and DELAY sections of IOPATH / INTERCONNECT entries with `()` or three-field value lists) whose name tokens
+are tokens of the grammar (`validId`, `validIoe`, `validDesign`: plain or quoted / parenthesised form) and whose
+number fields are empty or decimal numbers `float()` accepts, and whose entries have one or two value lists,
+reading the canonical text gives back exactly `f` — through the scanner with lark's per-state terminal order, the
+reader for the grammar, and the transformer's raise conditions (`SdfFile.ok`). -/
+theorem sdf_text_roundtrip (f : SdfFile) (h : f.valid = true) : parseSdf (printSdf f) = some f :=
+  parseSdf_print f h
+
+/-- the same at the grammar level alone (what lark's parse tree contains, no transformer) -/
+theorem sdf_text_roundtrip_tree (f : SdfFile) (h : f.valid = true) : parseTree (printSdfL f) = some f :=
+  parseTree_print f h
+
+/-- Through the text and back at the level of the block lists that the landing theorems above are about: print a block
+list (IOPATH entries in blocks with an INSTANCE name, INTERCONNECT entries in blocks without; numbers in thousandths as
+`[-]i.fff`), read the text with the grammar model, hand the tree over (`SdfFile.toRaw`) — the same block list comes back.
+Hypotheses (decidable): value lists are `()` or have three fields (`rawShapeOK`), and the tree is printable
+(`SdfFile.valid`: name tokens of the grammar, one or two value lists per entry). -/
+theorem sdf_text_roundtrip_raw (B : List RawCell) (hs : rawShapeOK B = true) (hv : (ofRaw B).valid = true) :
+    (parseSdf (printSdf (ofRaw B))).bind SdfFile.toRaw = some B := raw_roundtrip B hs hv
+
+/-- thousandths print and read back exactly; the printed field is a number `float()` accepts -/
+theorem sdf_text_number_roundtrip (v : Int) : milli (showMilli v) = some v ∧ validField (showMilli v) = true :=
+  ⟨(showMilli_spec v).2, (showMilli_spec v).1⟩
+
+/-- a valid tree never makes the transformer raise -/
+theorem sdf_text_valid_ok (f : SdfFile) (h : f.valid = true) : f.ok = true := SdfFile.ok_of_valid f h
+
+/-- a file with a DESIGN entry, an escaped instance name, an edge-qualified pin, `()`, partially empty value lists,
+a negative number, two DELAY sections, a quoted name with a blank, and a block without INSTANCE -/
+def exText : SdfFile :=
+  { designs := ["top".toList],
+    cells := [⟨["u\\3\\[0\\]".toList],
+                [[⟨true, "(posedge A1)".toList, "ZN".toList, [some ("1.5".toList, "2".toList, "-.25".toList), none]⟩],
+                 [⟨true, "A2".toList, "ZN".toList, [some ([], [], "9".toList)]⟩]]⟩,
+              ⟨[], [[⟨false, "\"a b\"".toList, "u2/I".toList, [some ("0.1".toList, [], [])]⟩]]⟩] }
+
+example : exText.valid = true := by decide +kernel
+example : printSdf exText = "(DELAYFILE (DESIGN \"top\") (CELL (INSTANCE u\\3\\[0\\]) (DELAY (ABSOLUTE (IOPATH (posedge A1) ZN (1.5:2:-.25) ()))) (DELAY (ABSOLUTE (IOPATH A2 ZN (::9))))) (CELL (DELAY (ABSOLUTE (INTERCONNECT \"a b\" u2/I (0.1::))))))\n" := by
+  decide +kernel
+example : parseSdf (printSdf exText) = some exText := sdf_text_roundtrip exText (by decide +kernel)
+
+/-- the reader on a text the printer does not produce: header entries, comment, tabs and line breaks, CELLTYPE,
+`( )`, a TIMINGCHECK block with nested parentheses -/
+example : parseSdf ("(DELAYFILE (SDFVERSION \"2.1\") // c\n (CELL (CELLTYPE \"INV\")\n\t(INSTANCE u1) (DELAY (ABSOLUTE\n " ++
+      "(IOPATH A ZN (1:2:3) ( )))) (TIMINGCHECK (WIDTH (posedge A) (1:1:1)) x)))")
+    = some ⟨[], [⟨["u1".toList], [[⟨true, "A".toList, "ZN".toList, [some ("1".toList, "2".toList, "3".toList), none]⟩]]⟩]⟩ := by
+  decide +kernel
+/-- lark's terminal order: a line break after `(INSTANCE` belongs to the name -/
+example : parseSdf "(DELAYFILE (CELL (INSTANCE\nu1)))" = some ⟨[], [⟨["\nu1".toList], []⟩]⟩ := by decide +kernel
+/-- `float("-")` raises in the transformer; three value lists make `IOPath(*args)` raise -/
+example : parseSdf "(DELAYFILE (CELL (INSTANCE u1) (DELAY (ABSOLUTE (IOPATH A ZN (1:-:3))))))" = none := by decide +kernel
+example : parseSdf "(DELAYFILE (CELL (INSTANCE u1) (DELAY (ABSOLUTE (IOPATH A ZN () () ())))))" = none
+    ∧ (parseTree "(DELAYFILE (CELL (INSTANCE u1) (DELAY (ABSOLUTE (IOPATH A ZN () () ())))))".toList).isSome = true := by
+  decide +kernel
+/-- the block list `exCells` of the non-vacuity section above satisfies the hypotheses of `sdf_text_roundtrip_raw` -/
+example : rawShapeOK exCells = true ∧ (ofRaw exCells).valid = true := by decide +kernel
+example : (parseSdf (printSdf (ofRaw exCells))).bind SdfFile.toRaw = some exCells :=
+  sdf_text_roundtrip_raw exCells (by decide +kernel) (by decide +kernel)
+example : showMilli (-1250) = "-1.250".toList ∧ showMilli 7 = "0.007".toList ∧ milli "12.5".toList = some 12500
+    ∧ milli "-.25".toList = some (-250) ∧ milli "1.0004".toList = none ∧ milli "3.".toList = some 3000 := by decide +kernel
+end text
 
 end KV.C14
